@@ -2111,6 +2111,9 @@ thread_main_handle_connection (void *data)
       /* Process response queued during suspend and update states. */
       MHD_connection_handle_idle (con);
       was_suspended = false;
+      if (con->suspended)
+        continue; /* The handler suspended the connection again: wait for the
+                     next resume instead of blocking on the socket. */
     }
 
     use_zero_timeout =
